@@ -390,3 +390,32 @@ Proof.
     intros o Ho. exists o. split; [exact Ho|lia].
   - intros x Hx Hp. exists (s2_CellIDFromFace 0). split; [left; reflexivity|exact Hp].
 Qed.
+
+(** FINDING (unchanged /repo): FastCovering does not honour MinLevel / LevelMod when
+    normalizeCovering takes its "very large covering" branch, which covers with
+    NewRegionCoverer() defaults.  Witness observed on the implementation (cap of radius 6.96e-6,
+    RegionCoverer{10, 24, 3, -2600}) and replayed here on the model: the bound's four level-16 cells
+    come back as their level-15 parent, and (15 - 10) mod 3 = 2. *)
+Definition refute_bound : list Z :=
+  [12776500542427889664; 12776500541891018752; 12776500540817276928; 12776500541354147840].
+Definition refute_cubound : list Z :=
+  [12776500538401357824; 12776500985077956608; 12776500572761096192; 12776500950718218240].
+Definition refute_opts : opts := mkOpts 10 24 3 (-2600).
+
+Lemma valid_at_compute : forall c L,
+  ((0 <=? L) && (L <=? 30) && (0 <? c) && (c <? 6 * 2 ^ 61) && (c mod (2 * lsbL L) =? lsbL L)) = true -> valid_at c L.
+Proof. intros c L H. unfold valid_at. lia. Qed.
+
+Lemma fast_levels_refuted_lemma :
+  ValidB refute_bound /\ all_valid refute_cubound /\
+  exists r c, FastCovering refute_bound (cu_fallback (fun _ => refute_cubound)) refute_opts = Some r /\
+    In c r /\ valid c /\ (s2_CellID_Level c - clampMinLevel refute_opts) mod clampLevelMod refute_opts <> 0.
+Proof.
+  split; [|split].
+  - unfold ValidB, all_valid, refute_bound. repeat constructor; exists 16; apply valid_at_compute; vm_compute; reflexivity.
+  - unfold all_valid, refute_cubound. repeat constructor; exists 13; apply valid_at_compute; vm_compute; reflexivity.
+  - exists [12776500541622583296], 12776500541622583296.
+    split; [vm_compute; reflexivity|]. split; [left; reflexivity|]. split.
+    + exists 15. apply valid_at_compute. vm_compute. reflexivity.
+    + vm_compute. discriminate.
+Qed.
